@@ -80,6 +80,7 @@ class World:
         self.contracts = {}
         self.loop_contracts = {}
         self.loop_factories = {}
+        self.default_loop = None        # LoopC used for cut loops without a contract of their own
         self.merge_factories = {}       # (qual, loop ordinal) -> fn(ip, iteration index) -> (subkey, MergeC) | None
         self.externals = {}
         self.heap_globals = {}
@@ -105,7 +106,7 @@ class World:
         if f is not None and ip is not None:
             sub, lc = f(ip)
             return key + (sub,), lc
-        return key, self.loop_contracts.get(key)
+        return key, self.loop_contracts.get(key, self.default_loop)
 
     def in_scope(self, f):
         return getattr(f, "__module__", None) in self.scope_modules
@@ -280,6 +281,12 @@ class Task:
                 args[pname] = Sym(z3.String("a_" + pname), "str")
             elif spec == "bool":
                 args[pname] = Sym(z3.Bool("a_" + pname), "bool")
+            elif spec == "RawNode":
+                # an allocated Node object whose fields are not initialised yet (the `self` of __init__)
+                t = z3.Int("a_" + pname)
+                c.assume(c.ty_fact(Val.ref(t), "Node"))
+                args[pname] = Sym(t, "Node")
+                self.raw_args = getattr(self, "raw_args", set()) | {pname}
             elif spec in ("Node",) or spec.startswith("list") or spec.startswith("dict"):
                 t = z3.Int("a_" + pname)
                 c.assume(c.ty_fact(Val.ref(t), spec))
@@ -333,7 +340,7 @@ class Task:
                 args = self.make_args(ip)
                 # T-schema at the entry state: the containers of every Node argument are allocated objects of the entry heap
                 for an, av in args.items():
-                    if isinstance(av, Sym) and av.ty == "Node":
+                    if isinstance(av, Sym) and av.ty == "Node" and an not in getattr(self, "raw_args", ()):
                         for fld, fty in self.world.schema.get("Node", {}).items():
                             c.from_val(c.heap.get("F:" + fld)[av.t], fty)
                 c.heap0 = c.heap.snapshot()
@@ -375,6 +382,10 @@ class Task:
             except PyRaise as pr:
                 cls = pr.exc.cls
                 matched = False
+                if getattr(con, "ignore_exceptions", False):
+                    # frame-only contracts: whatever is raised, nothing pre-existing may have been written
+                    matched = True
+                    self.check_frame(c, SV(c.heap0), self.spec_args, name + f"/raises:{cls.__name__}")
                 for (k, cond, post) in con.raises:
                     if cls is k or (getattr(con, "raises_subclasses", False) and issubclass(cls, k)):
                         matched = True
@@ -408,6 +419,8 @@ class Task:
         self.res.assumptions.update(c.assumptions_used)
 
     def result_type_ok(self, c, result, ty):
+        if ty == "val":
+            return True
         if isinstance(result, Sym) and result.ty == ty:
             return True
         if result is None:
@@ -419,9 +432,9 @@ class Task:
         if isinstance(result, str):
             return ty in ("str", "val", "opt:str")
         if isinstance(result, PList):
-            return ty.startswith("list") or ty == "val"
+            return ty.startswith("list") or ty.startswith("opt:list") or ty == "val"
         if isinstance(result, Sym):
-            if ty.startswith("opt:") and result.ty == ty[4:]:
+            if ty.startswith("opt:") and (result.ty == ty[4:] or (result.ty or "").split(":")[0] == ty[4:].split(":")[0] != ""):
                 return True
             return z3.simplify(c.ty_fact(c.to_val(result), ty))
         return ty == "val"
